@@ -62,11 +62,10 @@ JudgeR(o, sh, v, tag) ==
     IN IF v \notin {"ok", "err"} THEN Say(o.tid, "viol:NoVerdict" \o tag)
        ELSE IF v = "err" \/ RefExempt(c) THEN TRUE
        ELSE /\ (IF bad = {} THEN TRUE
-                ELSE IF Dev_ProtocolMemberWithoutSelf(c) THEN Say(o.tid, "dev:protocol-member-without-self")
                 ELSE IF \A i \in bad : Dev_KAPAt(c, i, o.maxpos, o.maxkw) /\ ImplAcceptsAt(c, i)
                      THEN Say(o.tid, "dev:keyword-also-positional")
                 ELSE Say(o.tid, "viol:" \o Clause(c) \o tag))
-            /\ (IF \A i \in RefExpected(c) : RefTypesOn(c, i, sh) \/ Dev_ProtocolMemberWithoutSelf(c)
+            /\ (IF \A i \in RefExpected(c) : RefTypesOn(c, i, sh)
                 THEN TRUE
                 ELSE Say(o.tid, "viol:TypesSound-" \o c.route \o tag))
 
